@@ -100,6 +100,28 @@ fn forge_ack(r: &mut Rng, s: &uv::VerifSnapshot, cfg: &PairCfg) -> uv::Frame {
         let off: i64 = *r.pick(&[0i64, 0, 1, log_len - 1, log_len, log_len + 1, -1, -32, 1 << 30]);
         let base = (s.f_log_base as i64).wrapping_add(off) as u32;
         let bits = *r.pick(&[0u32, 1, 1, 3, 0x80000000, 0xFFFFFFFF, 0x00010001]) | if r.chance(1, 4) { r.next() as u32 } else { 0 };
+        if r.chance(1, 2) {
+            // structured group: the base lies up to 33 ids before the log (or inside it); bits are set only at
+            // positions whose frame is in the log (a random subset, the lowest or the highest such position), the
+            // positions before the log stay clear; sometimes one position outside the log is set as well
+            let lo: i64 = *r.pick(&[-33i64, -32, -31, -8, -2, -1, -1, 0, 1, 2]);
+            let base = (s.f_log_base as i64).wrapping_add(lo) as u32;
+            let inlog: Vec<u32> = (0u32..32).filter(|i| { let d = (lo + *i as i64) as i64; d >= 0 && d < log_len }).collect();
+            let mut bits = 0u32;
+            if !inlog.is_empty() {
+                match r.below(4) {
+                    0 => bits |= 1 << inlog[0],
+                    1 => bits |= 1 << inlog[inlog.len() - 1],
+                    2 => for i in inlog.iter() { bits |= 1 << *i; },
+                    _ => for i in inlog.iter() { if r.chance(1, 2) { bits |= 1 << *i; } },
+                }
+            }
+            if r.chance(1, 5) {
+                bits |= 1 << r.below(32);
+            }
+            groups.push(uv::AckGroup { base_id: base, bitfield: bits, nonce: r.chance(1, 2) });
+            continue;
+        }
         groups.push(uv::AckGroup { base_id: base, bitfield: bits, nonce: r.chance(1, 2) });
     }
     let _ = cfg;
@@ -164,11 +186,11 @@ pub struct HostileStats {
     pub dead: bool,
 }
 
-pub fn run_hostile(tr: &mut Trace, run: u64, seed: u64) -> HostileStats {
+pub fn run_hostile(tr: &mut Trace, run: u64, seed: u64, log_steps: bool) -> HostileStats {
     let mut r = Rng::new(seed);
     crate::hc_random::uflow_rand_seed(seed);
     let pw = *r.pick(&[2u32, 4, 8, 16, 64, 4096]);
-    let fw = *r.pick(&[2u32, 4, 8, 16, 4096]);
+    let fw = *r.pick(&[2u32, 4, 8, 16, 64, 256, 4096]);
     let pbase = [(r.next() as u32) & PID_MASK, if r.chance(1, 2) { 0xFFFFF - r.below(3 * pw as u64) as u32 } else { r.next() as u32 & PID_MASK }];
     let fbase = [r.next() as u32, if r.chance(1, 2) { u32::MAX - r.below(3 * fw as u64) as u32 } else { r.next() as u32 }];
     let rx_alloc = [*r.pick(&[3000usize, 10000, 1000000]), *r.pick(&[3000usize, 10000, 1000000])];
@@ -180,6 +202,7 @@ pub fn run_hostile(tr: &mut Trace, run: u64, seed: u64) -> HostileStats {
     let cadence = *r.pick(&[0u64, 1, 20, 20, 200, 2000]);
     let inject_prob = *r.pick(&[10u64, 30, 60, 100]);
     let genuine = r.chance(3, 4); // whether b is an honest sender at all
+    let flood = r.chance(1, 2);
     let kind_w = *r.pick(&[[3u64, 3, 3, 1, 1, 1], [1, 0, 0, 0, 0, 0], [0, 1, 0, 0, 0, 0], [0, 0, 1, 0, 0, 0], [1, 1, 1, 3, 3, 3]]);
     tr.line(json!({"ev": "Reset", "run": run, "seed": seed as i64 & 0x3FFFFFFF, "driver": "hc-hostile", "profile": "hostile", "ideal": false,
         "cfg": p.cfg_json(), "ceil_a": cfg.bw[0], "ceil_b": cfg.bw[1], "cadence": cadence}));
@@ -257,7 +280,28 @@ pub fn run_hostile(tr: &mut Trace, run: u64, seed: u64) -> HostileStats {
                     }
                 }
             }
-            p.step(tr, e, false);
+            // acknowledgement flood: a burst of empty data frames whose ids are 32 or more apart, each inside the
+            // receive window (which follows the latest id), so that every one of them starts an ack group of its own;
+            // the endpoint then owes hundreds of groups - more than fit into one ack frame - at its next flush
+            // (launched when the endpoint has at least one full frame of send credit, so that the flush after it is
+            // limited by the frame size and not by the budget)
+            let credit = p.ep[e].hc.as_ref().map(|h| h.verif_snapshot().flush_alloc).unwrap_or(0);
+            if flood && fw >= 64 && ((credit >= 1472 && r.chance(1, 4)) || r.chance(1, 40)) {
+                let n = r.range(170, 700);
+                let stride = (*r.pick(&[32u32, 33, 40, 63])).min(fw);
+                for _ in 0..n {
+                    if p.dead {
+                        break;
+                    }
+                    let s = p.ep[e].hc.as_ref().unwrap().verif_snapshot();
+                    let f = uv::Frame::DataFrame(uv::DataFrame { sequence_id: s.rf_base.wrapping_add(stride - 1), nonce: r.chance(1, 2), datagrams: vec![] });
+                    if let Some(b) = write_frame(&f) {
+                        injected += 1;
+                        p.handle_bytes(tr, e, &b, json!({"forged": "ack-flood"}));
+                    }
+                }
+            }
+            p.step(tr, e, log_steps);
             if r.chance(9, 10) {
                 p.receive(tr, e);
             }
@@ -276,7 +320,7 @@ pub fn run_hostile(tr: &mut Trace, run: u64, seed: u64) -> HostileStats {
                 p.launch(e, idx, bytes, due);
             }
             p.deliver_due(tr, e);
-            p.step(tr, e, false);
+            p.step(tr, e, log_steps);
             p.receive(tr, e);
         }
     }
